@@ -641,7 +641,13 @@ fn judge(case: &Case, tgt: Tgt, pipe: Option<&XPipe>, out: &rssl::CompiledPipeli
         }
     };
     let reach = case.reachable(pipe);
-    let res_by_name: BTreeMap<&str, (usize, &XRes)> = case.res.iter().enumerate().map(|(i, r)| (r.name.as_str(), (i, r))).collect();
+    let mut res_by_name: BTreeMap<&str, (usize, &XRes)> = BTreeMap::new();
+    let mut shared_names: BTreeSet<&str> = BTreeSet::new();
+    for (i, r) in case.res.iter().enumerate() {
+        if res_by_name.insert(r.name.as_str(), (i, r)).is_some() {
+            shared_names.insert(r.name.as_str());
+        }
+    }
 
     // ---- 1. every metadata entry matches the declaration with that name
     let mut entries_by_name: BTreeMap<String, u32> = BTreeMap::new();
@@ -726,6 +732,11 @@ fn judge(case: &Case, tgt: Tgt, pipe: Option<&XPipe>, out: &rssl::CompiledPipeli
                 if want_count.is_some_and(|w| b.descriptor_count != w) {
                     fails.push(Fail { class: "count-mismatch", detail: format!("`{}` declared with {:?} but descriptor_count {:?}", b.name, d.arr, b.descriptor_count) });
                 }
+            }
+            // two input declarations of one (leaf) name: the entry can not be attributed to either
+            if shared_names.contains(b.name.as_str()) {
+                fails.push(Fail { class: "entry-name-ambiguous", detail: format!("2 declarations named `{}` in the request", b.name) });
+                continue;
             }
             // flags that only the input declaration carries
             if let Some((idx, r)) = source {
@@ -1081,6 +1092,14 @@ fn mutate(case: &mut Case, rng: &mut Rng, hist: &mut Hist) {
             case.res[c].name = "float16_t_0".to_string();
             hist.add("variant=cbuffer-named-like-generated-name");
         }
+    }
+    // two resources with one leaf name, one of them inside a namespace
+    if case.res.len() >= 2 && rng.chance(1, 40) {
+        let n = case.res[0].name.clone();
+        case.res[1].name = n;
+        case.res[1].ns = true;
+        case.res[0].ns = false;
+        hist.add("variant=same-leaf-name-in-namespace");
     }
     // an unsized array
     if !case.res.is_empty() && rng.chance(1, 24) {
